@@ -8,7 +8,12 @@ namespace Spydr.Edif
 
 /-! ### libraries -/
 
-def ALib.data (l : ALib) : Data := withName [] l.name.ident l.name.name
+/-- the dictionary a library starts with: `(external …)` is recorded before the name is read -/
+def ALib.base (l : ALib) : Data := if l.external then [(S "EDIF.external", .bool true)] else []
+
+def ALib.kw (l : ALib) : String := if l.external then "external" else "library"
+
+def ALib.data (l : ALib) : Data := withName l.base l.name.ident l.name.name
 
 def ALib.elab (l : ALib) : CLib := { data := l.data, defs := l.cells.map ACell.elab }
 
@@ -69,17 +74,22 @@ theorem foldlM_lib_ACells (rlibs : List CLib) (l : ALib) (hn : namesOKB (l.cells
 theorem parseLibrary_ALib (rlibs : List CLib) (l : ALib) (hname : l.name.okB = true)
     (hn : namesOKB (l.cells.map (·.name)) = true)
     (hcells : ∀ (D : Nat) (c : ACell), l.cells[D]? = some c → c.OKIn (cellScope rlibs l D)) :
-    ∃ t, l.sexp = .list (A "library" :: t) ∧ parseLibrary rlibs false (A "library" :: t) = .ok l.elab := by
+    ∃ t, l.sexp = .list (A l.kw :: t) ∧ parseLibrary rlibs l.external (A l.kw :: t) = .ok l.elab := by
   refine ⟨_, rfl, ?_⟩
+  have hbase : l.base.has kNAME = false := by
+    unfold ALib.base; cases l.external <;> decide
+  have hm0 : (if l.external = true then { Meta.new with data := [(S "EDIF.external", Val.bool true)] } else Meta.new) =
+      { data := l.base, pfx := [S "EDIF"] } := by
+    unfold ALib.base Meta.new; cases l.external <;> rfl
   obtain ⟨yss, hw, hf⟩ := foldlM_lib_ACells rlibs l hn hcells
   have hl : isKw (A "edifLevel") "ediflevel" = true := by decide
   have ht : isKw (A "technology") "technology" = true := by decide
   have hnd : headIs [A "numberDefinition"] "numberdefinition" = true := by rw [headIs_cons]; decide
   have hfold := hf { m := { data := l.data, pfx := [S "EDIF"] } } rfl rfl
   simp only [ALib.data] at hfold
-  simp only [parseLibrary, Bool.false_eq_true, if_false, List.tail_cons, nameDef_AName_new l.name hname,
-    levelOf_zero _ "edifLevel" "ediflevel" "edifLevel" hl, ht, hnd, Bool.not_true, hw, loopC_lists_nil, hfold, endC, bind,
-    Except.bind, pure, Except.pure, ALib.elab, ALib.data]
+  simp only [parseLibrary, hm0, List.tail_cons, nameDef_AName l.name hname l.base _ hbase,
+    levelOf_zero _ "edifLevel" "ediflevel" "edifLevel" hl, ht, hnd, Bool.not_true, Bool.false_eq_true, if_false, hw,
+    loopC_lists_nil, hfold, endC, bind, Except.bind, pure, Except.pure, ALib.elab, ALib.data]
 
 theorem identOf_ALib_data (l : ALib) : identOf l.elab.data = some l.name.ident := identOf_withName _ _ _
 theorem nameOf_ALib_data (l : ALib) : nameOf l.elab.data = some l.name.name := nameOf_withName _ _ _
@@ -108,11 +118,13 @@ theorem foldlM_body_ALibs (libs : List ALib) (hn : namesOKB (libs.map (·.name))
       rw [htake] at hcells
       obtain ⟨t, hys, hparse⟩ := parseLibrary_ALib (done.map ALib.elab) l hln hcn hcells
       obtain ⟨yss, hyss, hfold⟩ := ih (done ++ [l]) (by simp [hsplit])
-      refine ⟨(A "library" :: t) :: yss, by simp [hys, hyss], ?_⟩
+      refine ⟨(A l.kw :: t) :: yss, by simp [hys, hyss], ?_⟩
       intro st hst
-      have h1 : headIs (A "library" :: t) "status" = false := by rw [headIs_cons]; decide
-      have h2 : headIs (A "library" :: t) "library" = true := by rw [headIs_cons]; decide
-      have h3 : headIs (A "library" :: t) "external" = false := by rw [headIs_cons]; decide
+      have h1 : headIs (A l.kw :: t) "status" = false := by rw [headIs_cons]; unfold ALib.kw; cases l.external <;> decide
+      have h2 : (headIs (A l.kw :: t) "library" || l.external) = true := by
+        rw [headIs_cons]; unfold ALib.kw; cases l.external <;> decide
+      have h3 : headIs (A l.kw :: t) "external" = l.external := by
+        rw [headIs_cons]; unfold ALib.kw; cases l.external <;> decide
       have hfresh := namesOKB_fresh _ hn (done.map (·.name)) (r.map (·.name)) l.name (by simp [hsplit])
       have hconf : conflicts (st.libs.map (·.data)) l.elab.data = false := by
         apply conflicts_false_of_names _ _ _ _ (identOf_ALib_data l) (nameOf_ALib_data l)
@@ -121,9 +133,9 @@ theorem foldlM_body_ALibs (libs : List ALib) (hn : namesOKB (libs.map (·.name))
         obtain ⟨q, hq, rfl⟩ := List.mem_map.mp hs
         have := hfresh q.name (List.mem_map_of_mem hq)
         exact ⟨_, _, identOf_ALib_data q, nameOf_ALib_data q, this.1, this.2⟩
-      have hparse' : parseLibrary st.libs false (A "library" :: t) = .ok l.elab := by rw [hst]; exact hparse
-      have hstep : bodyItem st (A "library" :: t) = .ok { st with libs := st.libs ++ [l.elab] } := by
-        simp only [bodyItem, h1, h2, h3, Bool.false_eq_true, if_false, Bool.or_false, if_true, hparse', hconf, bind,
+      have hparse' : parseLibrary st.libs l.external (A l.kw :: t) = .ok l.elab := by rw [hst]; exact hparse
+      have hstep : bodyItem st (A l.kw :: t) = .ok { st with libs := st.libs ++ [l.elab] } := by
+        simp only [bodyItem, h1, h2, h3, Bool.false_eq_true, if_false, if_true, hparse', hconf, bind,
           Except.bind, pure, Except.pure]
       simp only [List.foldlM_cons, hstep, bind, Except.bind]
       have := hfold { st with libs := st.libs ++ [l.elab] } (by simp [hst])
